@@ -146,6 +146,17 @@ def check_frame(out, rng, fr, sess, pending):
                            f'design-side fit (estimate {f.estimate}, half-width {f.cihw}, scale {f.scale}) differs from the analysis '
                            f'(estimate {loc[-1]}, precision {float(sm1["precision"].iloc[0])}, scale {scale[-1]})')
       return
+    if fr.get('int_values') and float(np.abs(np.concatenate([px, py])).max()) * 1000 < 2 ** 31:
+      # count-like data in thousands, the control series handed over as a 32-bit integer array: the unit change is exact
+      k = 1000.0
+      d_big = tbrmmdiagnostics.TBRMMDiagnostics(py * k, par)
+      d_big.x = (px * k).astype(np.int32)
+      fb = d_big.tbrfit(float(tx.mean()) * k, float(ty.mean()) * k)
+      if not (en.close(fb.estimate, k * f.estimate, 1e-8, abs(k * f.scale)) and en.close(fb.cihw, k * f.cihw, 1e-8) and en.close(fb.scale, k * f.scale, 1e-8)):
+        out.oracle_violation(dict(facts, symptom='design-int32'), case,
+                             f'design-side fit on the same data in thousands with an int32 control series: (estimate, half-width, scale) = '
+                             f'({fb.estimate}, {fb.cihw}, {fb.scale}), expected 1000 x ({f.estimate}, {f.cihw}, {f.scale})')
+        return
   # model requests (Float correspondence) on well-conditioned frames
   if sess is not None and cond:
     sess.set_series(px, py, tx, ty)
@@ -198,6 +209,8 @@ def run(out, tier, model_ok=True):
   for i in range(n):
     fr = en.gen_frame(rng, n_pre=(3 if i % 15 == 0 else None), spike=(i % 11 == 0))
     fr['use_cooldown'] = rng.random() < 0.7
+    if i % 4 == 1 and frames and 'refit_after' not in frames[-1]:
+      fr['refit_after'] = {k: v for k, v in frames[-1].items() if k != 'refit_after'}      # one analysis object, two experiments in a row
     frames.append(fr)
   sess = en.ModelSession() if model_ok else None
   pending = []
@@ -205,7 +218,7 @@ def run(out, tier, model_ok=True):
     check_frame(out, rng, fr, sess, pending)
   if sess is not None and pending:
     compare_model(out, pending, sess.run())
-  out.rule = ('generated experiment frames: 1-4 geos per group, n_pre 3-20 (every 15th frame n_pre = 3), 1-8 test days, 0-4 cooldown days, '
+  out.rule = ('generated experiment frames: 1-4 geos per group, n_pre 3-20 (every 15th frame n_pre = 3), 1-8 test days, 0-4 cooldown days, every fourth frame fitted on an object that had already analysed the previous frame, '
               'leading unassigned dates and unassigned geos, shuffled rows, with/without cooldown; per frame: closed-form check for two '
               'rescale factors (incl. negative), three layout variants, a summary with random level/tails/threshold/rescale on all days, '
               'design-side vs analysis-side; model correspondence on well-conditioned frames; non-trivial = well-conditioned frame; '
